@@ -322,6 +322,7 @@ func (rs *runState) parallel(base int, ops []core.Op) {
 	}
 	pre := rs.snapshotCounts()
 	first := len(rs.issues)
+	failedBefore := rs.errs["send"] + rs.errs["NewAddress"] + rs.errs["NewChangeAddress"] + rs.errs["CurrentAddress"]
 	done := 0
 	rs.section++
 	for _, t := range ts {
@@ -342,7 +343,8 @@ func (rs *runState) parallel(base int, ops []core.Op) {
 		return
 	}
 	if x.prop == "C09" && !x.violated {
-		rs.checkC09(pre, rs.issues[first:])
+		failed := rs.errs["send"] + rs.errs["NewAddress"] + rs.errs["NewChangeAddress"] + rs.errs["CurrentAddress"] - failedBefore
+		rs.checkC09(pre, rs.issues[first:], failed)
 	}
 }
 
